@@ -191,6 +191,12 @@ func containerFor(pos string, it ap.Item) []ap.Item {
 			&ap.Object{ID: "https://example.com/o", Type: ap.NoteType, To: ap.ItemCollection{other, it}, Tag: ap.ItemCollection{it, validNote()}},
 			&ap.Activity{ID: "https://example.com/a", Type: ap.CreateType, CC: ap.ItemCollection{it, other}, Object: validNote()},
 			&ap.OrderedCollection{ID: "https://example.com/c", Type: ap.OrderedCollectionType, OrderedItems: ap.ItemCollection{validNote(), it}},
+			// the nil item as the ONLY member (lists of one are written in compact form), in list-typed and item-typed positions
+			ap.ItemCollection{it},
+			&ap.Object{ID: "https://example.com/o1", Type: ap.NoteType, To: ap.ItemCollection{it}, Attachment: ap.ItemCollection{it}, Tag: ap.ItemCollection{it}},
+			&ap.Activity{ID: "https://example.com/a1", Type: ap.CreateType, Actor: ap.ItemCollection{it}, Object: ap.ItemCollection{it}, BCC: ap.ItemCollection{it}},
+			&ap.Collection{ID: "https://example.com/c1", Type: ap.CollectionType, Items: ap.ItemCollection{it}},
+			ap.ItemCollection{it, it},
 		}
 	}
 	return []ap.Item{
